@@ -185,7 +185,8 @@ def orbital_reduction_contract(en: E.Engine):
 
 def _hs_self(en):
   sigma, sigma_b = en.real('sigma'), en.real('sigma_b')
-  self = E.Obj(sigma=sigma, sigma_b=sigma_b, kf=en.real('kf'), ka=en.real('ka'), ks=en.real('ks'), lat=en.real('lat'),
+  from dinosaur import held_suarez as _hs
+  self = E.Obj(class_ref=_hs.HeldSuarezForcing, sigma=sigma, sigma_b=sigma_b, kf=en.real('kf'), ka=en.real('ka'), ks=en.real('ks'), lat=en.real('lat'),
                p0=en.real('p0'), minT=en.real('minT'), maxT=en.real('maxT'), dTy=en.real('dTy'), dThz=en.real('dThz'),
                physics_specs=E.Obj(kappa=en.real('kappa')))
   en.assume(z3.And(sigma > 0, sigma < 1, sigma_b >= 0, sigma_b < 1))
@@ -210,7 +211,6 @@ def kv_contract(en: E.Engine):
 def kt_contract(en: E.Engine):
   from dinosaur import held_suarez as hs
   self = _hs_self(en)
-  self.kv = E.SymCallable(lambda en_: en_.call(en_.load_function(hs.HeldSuarezForcing.kv), [self], {}), 'self.kv')
   en.assume(self.kf >= 0)                # kf = 0 (no friction) is an admissible forcing parameter
   en.cover('requires: 0 < sigma < 1, 0 <= sigma_b < 1, kf >= 0')
   kind, kt = en.invoke(en.load_function(hs.HeldSuarezForcing.kt), self)
@@ -249,15 +249,15 @@ def teq_contract(en: E.Engine):
 
 
 def canary_contract(en: E.Engine):
-  """Deliberately false: flux <= mean (ignores the variation)."""
+  """Deliberately false: the direct irradiance never exceeds its mean (ignores the variation).  Kept linear so that the
+  refutation is immediate and stable (the earlier canary on the full flux was a non-linear sat query with unstable run time)."""
   from dinosaur import radiation as rad
-  ot = _orbital(en)
-  lon, lat = en.real('longitude'), en.real('latitude')
-  mean, var = en.real('mean_irradiance'), en.real('variation')
+  o = en.real('orbital_phase')
+  mean, var, per = en.real('mean_irradiance'), en.real('variation'), en.real('perihelion')
   en.assume(z3.And(var >= 0, mean >= var))
-  kind, flux = en.invoke(en.load_function(rad.get_radiation_flux), ot, lon, lat, mean_irradiance=mean, variation=var)
+  kind, s = en.invoke(en.load_function(rad.get_direct_solar_irradiance), o, mean, var, per)
   if kind == 'return':
-    en.ensure('canary: flux <= mean', flux <= mean, extra=elem.axioms(en))
+    en.ensure('canary: irradiance <= mean', s <= mean, extra=elem.axioms(en))
 
 
 # ---- replays (real code, floats) ------------------------------------------------------------------------
@@ -289,16 +289,13 @@ def replay_hs(w):
   from dinosaur import held_suarez as hs
   g = lambda k, d=0.0: _f(w[k]) if w.get(k) is not None else d
 
-  class _Self:
-    pass
-  s = _Self()
+  s = object.__new__(hs.HeldSuarezForcing)       # real class (all methods from the source), attributes from the counter-model
   s.sigma = np.array([g('sigma', 0.9)])
   s.sigma_b, s.kf, s.ka, s.ks = g('sigma_b', 0.7), g('kf'), g('ka'), g('ks')
   s.lat = np.array([[g('lat')]])
-  s.kv = lambda: hs.HeldSuarezForcing.kv(s)
   with np.errstate(all='ignore'):
-    kv = hs.HeldSuarezForcing.kv(s)
-    kt = hs.HeldSuarezForcing.kt(s)
+    kv = s.kv()
+    kt = s.kt()
   lo, hi = min(s.ka, s.ks), max(s.ka, s.ks)
   cut = np.maximum(0.0, (s.sigma - s.sigma_b) / (1 - s.sigma_b))
   kv_spec = s.kf * cut
@@ -347,5 +344,5 @@ def clauses():
              replay=replay_hs, group='pyvc'),
       Clause('smt:Held-Suarez equilibrium temperature >= minT and equals the documented formula', 'smt', [HS + 'equilibrium_temperature'],
              rc(teq_contract, 2), group='pyvc'),
-      Clause('canary:flux <= mean must fail', 'smt', R, rc(canary_contract, 1), canary=True, group='pyvc'),
+      Clause('canary:irradiance <= mean must fail', 'smt', R, rc(canary_contract, 1), canary=True, group='pyvc'),
   ]
